@@ -28,7 +28,9 @@ def neu(id, props, edits, note=''):
                   edits=[dict(file=f, old=o, new=n, nth=0, all=a) for f, o, n, a in edits]))
 
 
-ALL_PROPS = None  # filled at the end with the implemented properties
+import sys
+sys.path.insert(0, str(pathlib.Path(__file__).resolve().parent.parent))
+from pbv.props import ALL as ALLP
 
 # ------------------------------------------------------------------ re-introduced defects D1..D12 (reverse of the fix: commits)
 mut('D12-from_covariance-inplace', 'C20', D + 'complex_angular_central_gaussian.py',
@@ -44,7 +46,7 @@ mut('C20-dhtv-no-copy', 'C20', 'pb_bss/permutation_alignment.py', "            f
 mut('C20-phase-correction-no-copy', 'C20', 'pb_bss/extraction/beamformer.py', "    vector = np.array(vector, copy=True)", "    vector = np.asarray(vector)", expect='phase_correction')
 mut('C20-posterior-inplace-logpdf', 'C20', D + 'mixture_model_utils.py',
     "    affiliation = log_pdf - np.amax(log_pdf, axis=-2, keepdims=True)\n",
-    "    affiliation = log_pdf\n    affiliation -= np.amax(log_pdf, axis=-2, keepdims=True)\n", expect='log_pdf', props=['C20'])
+    "    affiliation = log_pdf\n    affiliation -= np.amax(log_pdf, axis=-2, keepdims=True)\n", expect='log_pdf', props=ALLP)
 mut('C20-wiener-mask-inplace-view', 'C20', 'pb_bss/extraction/mask_module.py',
     "    mask = np.abs(signal)\n\n    mask /= mask.sum(source_axis, keepdims=True) + eps",
     "    mask = signal.real\n\n    mask /= mask.sum(source_axis, keepdims=True) + eps", expect='ideal_ratio_mask')
@@ -147,28 +149,106 @@ mut('C01-clip-before-normalise', 'C01', D + 'mixture_model_utils.py',
     "    affiliation /= denominator\n\n    # Strictly, you need re-normalization after clipping. We skip that here.\n    if affiliation_eps != 0:\n        affiliation = np.clip(\n            affiliation, affiliation_eps, 1 - affiliation_eps,\n        )\n\n    return affiliation",
     "    if affiliation_eps != 0:\n        affiliation = np.clip(\n            affiliation, affiliation_eps, 1 - affiliation_eps,\n        )\n    affiliation /= denominator\n\n    return affiliation", expect='ORDER')
 
+
+# ------------------------------------------------------------------ C02 / C03 / C07 / C08
+mut('D1-loglik-ignores-weight', 'C02', D + 'cacgmm.py',
+    "        log_likelihood = np.sum(scipy.special.logsumexp(\n            log_pdf, axis=-2, b=np.broadcast_to(self.weight, log_pdf.shape)\n        ))",
+    "        log_likelihood = np.sum(scipy.special.logsumexp(log_pdf, axis=-2))", expect='log_likelihood')
+mut('D3-gaussian-whitening-column', 'C07', D + 'gaussian.py', "            '...Dd,...nD->...nd',", "            '...dD,...nD->...nd',", expect='cholesky-row', props=['C07', 'C03', 'C02'])
+mut('D4-diagonal-gaussian-rank', 'C07', D + 'gaussian.py', "            '...d,...nd->...nd',", "            '...dD,...nD->...nd',", expect='precision-rank')
+mut('C02-loglik-axis', 'C02', D + 'cacgmm.py', "            log_pdf, axis=-2, b=np.broadcast_to(self.weight, log_pdf.shape)", "            log_pdf, axis=-1, b=np.broadcast_to(self.weight, log_pdf.shape)", expect='class-axis')
+mut('C02-stale-quadratic-form', 'C02', D + 'cacgmm.py',
+    "                affiliation, quadratic_form, _ = model._predict(\n                    y,",
+    "                affiliation, _, _ = model._predict(\n                    y,", expect='mm-pairing', props=['C02'])
+mut('C02-gcacgmm-qf-not-updated', 'C02', D + 'gcacgmm.py',
+    "                affiliation, quadratic_form = model._predict(\n                    observation=observation,",
+    "                affiliation, _ = model._predict(\n                    observation=observation,", expect='mm-pairing')
+mut('C02-aligner-only-affiliation', 'C02', D + 'cacgmm.py',
+    "                    affiliation, quadratic_form \\\n                        = apply_inline_permutation_alignment(\n                            affiliation=affiliation,\n                            quadratic_form=quadratic_form,",
+    "                    affiliation, _unused_qf \\\n                        = apply_inline_permutation_alignment(\n                            affiliation=affiliation,\n                            quadratic_form=quadratic_form,", expect='mm-pairing')
+mut('C02-qf-start-zeros', 'C02', D + 'vmfcacgmm.py', "        quadratic_form = np.ones_like(initialization)", "        quadratic_form = np.zeros_like(initialization) + 2.", expect='quadratic-form-start')
+mut('C03-cacg-plain-eigenvalues', 'C03', D + 'complex_angular_central_gaussian.py', "                    1 / self.covariance_eigenvalues,", "                    self.covariance_eigenvalues,", expect='reciprocal', props=['C03', 'C07', 'C02'])
+mut('C03-pca-smallest', 'C03', 'pb_bss/utils.py', "        beamforming_vector = eigenvecs[..., -1]\n        eigenvalues = eigenvals[..., -1]\n        # Reconstruct original shape\n\n    beamforming_vector",
+    "        beamforming_vector = eigenvecs[..., 0]\n        eigenvalues = eigenvals[..., -1]\n        # Reconstruct original shape\n\n    beamforming_vector", expect='eigenvector-index', props=['C03', 'C08'])
+mut('C03-pca-row-instead-of-column', 'C03', 'pb_bss/utils.py', "        beamforming_vector = eigenvecs[..., -1]\n        eigenvalues = eigenvals[..., -1]\n        # Reconstruct original shape\n\n    beamforming_vector",
+    "        beamforming_vector = eigenvecs[..., -1, :]\n        eigenvalues = eigenvals[..., -1]\n        # Reconstruct original shape\n\n    beamforming_vector", expect='eigvec-axis')
+mut('C03-watson-sign', 'C03', D + 'complex_watson.py', "        result -= self.log_norm()[..., None]\n        return result", "        result += self.log_norm()[..., None]\n        return result", expect='log normaliser', props=['C03', 'C07'])
+mut('C03-watson-negated-concentration', 'C03', D + 'complex_watson.py', "        result *= self.concentration[..., None]", "        result *= -self.concentration[..., None]", expect='kappa', props=['C03', 'C07'])
+mut('C03-vmf-drops-concentration', 'C03', D + 'von_mises_fisher.py', "        result *= self.concentration[..., None]\n", "        result *= 1.0\n", expect='kappa', props=['C03', 'C07'])
+mut('C03-cacg-logdet-sign', 'C03', D + 'complex_angular_central_gaussian.py', "        log_pdf -= self.log_determinant[..., None]", "        log_pdf += self.log_determinant[..., None]", expect='log det', props=['C03', 'C07'])
+mut('C03-cacg-missing-D', 'C07', D + 'complex_angular_central_gaussian.py', "        log_pdf = -D * np.log(quadratic_form)", "        log_pdf = -np.log(quadratic_form)", expect='-D log', props=['C03', 'C07'])
+mut('C07-gaussian-half', 'C07', D + 'gaussian.py', "                - 1 / 2 * np.einsum('...nd,...nd->...n', white_x, white_x)\n        )\n\n\n@dataclass\nclass DiagonalGaussian",
+    "                - np.einsum('...nd,...nd->...n', white_x, white_x)\n        )\n\n\n@dataclass\nclass DiagonalGaussian", expect='squared norm')
+mut('C07-gaussian-logdet-sign', 'C07', D + 'gaussian.py', "                + self.log_det_precision_cholesky[..., None]\n                - 1 / 2 * np.einsum('...nd,...nd->...n', white_x, white_x)\n        )\n\n\nclass GaussianTrainer",
+    "                - self.log_det_precision_cholesky[..., None]\n                - 1 / 2 * np.einsum('...nd,...nd->...n', white_x, white_x)\n        )\n\n\nclass GaussianTrainer", expect='log det')
+mut('C07-ccsg-slogdet-sign-component', 'C07', D + 'complex_circular_symmetric_gaussian.py', "            - np.linalg.slogdet(self.covariance)[-1][..., None]", "            - np.linalg.slogdet(self.covariance)[0][..., None]", expect='slogdet')
+mut('C07-ccsg-no-conj', 'C07', D + 'complex_circular_symmetric_gaussian.py', "                '...nd,...nd->...n',\n                y.conj(),", "                '...nd,...nd->...n',\n                y,", expect='quadratic-form')
+mut('C07-vmf-bessel-order', 'C07', D + 'von_mises_fisher.py', "            + np.log(ive(D / 2 - 1, self.concentration))", "            + np.log(ive(D / 2, self.concentration))", expect='bessel-order')
+mut('C07-vmf-lognorm-2pi-sign', 'C07', D + 'von_mises_fisher.py', "            (D / 2) * np.log(2 * np.pi)\n            + np.log(ive", "            -(D / 2) * np.log(2 * np.pi)\n            + np.log(ive", expect='log(2 pi)')
+mut('C07-watson-1f1-args', 'C07', D + 'complex_watson.py', "        norm = hyp1f1(1, dimension, scale) * (", "        norm = hyp1f1(1, dimension + 1, scale) * (", expect='hyp1f1')
+mut('C07-watson-sphere-area', 'C07', D + 'complex_watson.py', "            2 * np.pi ** dimension / math.factorial(dimension - 1)\n        )\n        return np.log(norm)", "            2 * np.pi ** dimension / math.factorial(dimension)\n        )\n        return np.log(norm)", expect='sphere-area')
+mut('C07-watson-dimension-of-norm', 'C07', D + 'complex_watson.py', "        return self.log_norm_1f1(self.concentration, self.mode.shape[-1])", "        return self.log_norm_1f1(self.concentration, self.mode.shape[-2])", expect='arguments')
+mut('C07-bingham-conj-dropped', 'C07', D + 'complex_bingham.py', "        result = np.einsum(\"...td,...dD,...tD->...t\", y.conj(), self.covariance, y)", "        result = np.einsum(\"...td,...dD,...tD->...t\", y, self.covariance, y)", expect='quadratic-form')
+mut('C07-bingham-norm-axis', 'C07', D + 'complex_bingham.py', "        return 2 * np.pi**D * np.sum(a * np.exp(covariance_eigenvalues), axis=-1)", "        return 2 * np.pi**D * np.sum(a * np.exp(covariance_eigenvalues), axis=0)", expect='normaliser-form')
+mut('C07-cacg-covariance-transposed', 'C07', D + 'complex_angular_central_gaussian.py', "            '...wx,...x,...zx->...wz',\n            self.covariance_eigenvectors,\n            self.covariance_eigenvalues,\n            self.covariance_eigenvectors.conj(),\n            optimize='greedy',\n        )\n\n    @property\n    def log_determinant",
+    "            '...wx,...x,...zx->...zw',\n            self.covariance_eigenvectors,\n            self.covariance_eigenvalues,\n            self.covariance_eigenvectors.conj(),\n            optimize='greedy',\n        )\n\n    @property\n    def log_determinant", expect=None)
+mut('C07-diag-postinit-type', 'C07', D + 'gaussian.py', "            _compute_log_det_cholesky(pc, 'diag', D),", "            _compute_log_det_cholesky(pc, 'spherical', D),", expect='sklearn-helpers')
+mut('C08-mstep-twice', 'C08', D + 'gmm.py',
+    "            model = self._m_step(\n                y,\n                affiliation=affiliation,\n                saliency=saliency,\n                weight_constant_axis=weight_constant_axis,\n                covariance_type=covariance_type,\n                fixed_covariance=fixed_covariance,\n            )\n\n        return model",
+    "            model = self._m_step(\n                y,\n                affiliation=affiliation,\n                saliency=saliency,\n                weight_constant_axis=weight_constant_axis,\n                covariance_type=covariance_type,\n                fixed_covariance=fixed_covariance,\n            )\n            if iteration == 0:\n                model = self._m_step(\n                    y,\n                    affiliation=model.predict(y),\n                    saliency=saliency,\n                    weight_constant_axis=weight_constant_axis,\n                    covariance_type=covariance_type,\n                    fixed_covariance=fixed_covariance,\n                )\n\n        return model", expect='R-LOOP')
+mut('C08-estep-after-mstep', 'C08', D + 'vmfmm.py',
+    "            if model is not None:\n                affiliation = model.predict(y)\n\n            model = self._m_step(\n                y,\n                affiliation=affiliation,\n                saliency=saliency,\n                weight_constant_axis=weight_constant_axis,\n                min_concentration=min_concentration,\n                max_concentration=max_concentration,\n            )\n",
+    "            model = self._m_step(\n                y,\n                affiliation=affiliation,\n                saliency=saliency,\n                weight_constant_axis=weight_constant_axis,\n                min_concentration=min_concentration,\n                max_concentration=max_concentration,\n            )\n            if model is not None:\n                affiliation = model.predict(y)\n", expect='R-LOOP')
+mut('C08-range-off-by-one', 'C08', D + 'cwmm.py', "        for iteration in range(iterations):\n            if model is not None:\n                affiliation = model.predict(y)", "        for iteration in range(iterations - 1):\n            if model is not None:\n                affiliation = model.predict(y)", expect='range')
+mut('C08-estep-every-second', 'C08', D + 'cbmm.py', "            if model is not None:\n                affiliation = model.predict(y, affiliation_eps=affiliation_eps)", "            if model is not None and iteration % 2 == 0:\n                affiliation = model.predict(y, affiliation_eps=affiliation_eps)", expect='e-step-guard')
+mut('C08-saliency-dropped-component', 'C08', D + 'vmfmm.py', "            saliency=affiliation * saliency[..., None, :],\n            min_concentration", "            saliency=affiliation,\n            min_concentration", expect='component-weights')
+mut('C08-saliency-dropped-weight', 'C08', D + 'cwmm.py', "        weight = estimate_mixture_weight(\n            affiliation=affiliation,\n            saliency=saliency,", "        weight = estimate_mixture_weight(\n            affiliation=affiliation,\n            saliency=None,", expect='weight-update')
+mut('C08-wca-not-forwarded', 'C08', D + 'cbmm.py', "            weight_constant_axis=weight_constant_axis,\n        )\n\n        if saliency is None:\n            masked_affiliation = affiliation", "            weight_constant_axis=(-1,),\n        )\n\n        if saliency is None:\n            masked_affiliation = affiliation", expect='weight-update')
+mut('C08-fit-predict-swapped-options', 'C08', D + 'vmfmm.py', "            min_concentration=min_concentration,\n            max_concentration=max_concentration,\n            weight_constant_axis=weight_constant_axis,\n        )\n        return model.predict(y)",
+    "            min_concentration=max_concentration,\n            max_concentration=min_concentration,\n            weight_constant_axis=weight_constant_axis,\n        )\n        return model.predict(y)", expect='fit_predict-forwarding')
+mut('C08-fit-predict-drops-saliency', 'C08', D + 'cwmm.py', "            iterations=iterations,\n            saliency=saliency,\n            weight_constant_axis=weight_constant_axis,\n            affiliation_eps=affiliation_eps,\n            inline_permutation_aligner=inline_permutation_aligner,\n        )\n        return model.predict(y)",
+    "            iterations=iterations,\n            weight_constant_axis=weight_constant_axis,\n            affiliation_eps=affiliation_eps,\n            inline_permutation_aligner=inline_permutation_aligner,\n        )\n        return model.predict(y)", expect='fit_predict-forwarding')
+mut('C08-affiliation-eps-ignored', 'C08', D + 'gcacgmm.py', "                    inline_permutation_alignment=inline_permutation_alignment,\n                    affiliation_eps=affiliation_eps,\n                )\n\n            model = self._m_step(\n                observation,\n                embedding,\n                quadratic_form,\n                affiliation=affiliation,\n                saliency=saliency,\n                hermitize=hermitize,\n                covariance_norm=covariance_norm,\n                eigenvalue_floor=eigenvalue_floor,\n                covariance_type",
+    "                    inline_permutation_alignment=inline_permutation_alignment,\n                )\n\n            model = self._m_step(\n                observation,\n                embedding,\n                quadratic_form,\n                affiliation=affiliation,\n                saliency=saliency,\n                hermitize=hermitize,\n                covariance_norm=covariance_norm,\n                eigenvalue_floor=eigenvalue_floor,\n                covariance_type", expect='affiliation_eps')
+mut('C08-watson-scatter-conj-first', 'C08', D + 'complex_watson.py', "                \"...n,...nd,...nD->...dD\", saliency, y, y.conj()", "                \"...n,...nd,...nD->...dD\", saliency, y.conj(), y", expect='conj-second-index')
+mut('C08-tyler-weight-product', 'C08', D + 'complex_angular_central_gaussian.py', "            (saliency / quadratic_form),", "            (saliency * quadratic_form),", expect='tyler-weight')
+mut('C08-tyler-missing-D', 'C08', D + 'complex_angular_central_gaussian.py', "        covariance = D * np.einsum(\n            '...dn,...Dn,...n->...dD',", "        covariance = np.einsum(\n            '...dn,...Dn,...n->...dD',", expect='tyler-dimension')
+mut('C08-vmf-no-clip', 'C08', D + 'von_mises_fisher.py', "        concentration = np.clip(\n            concentration, min_concentration, max_concentration\n        )\n", "        concentration = np.maximum(concentration, min_concentration)\n", expect='clip')
+mut('C08-gaussian-weighted-sum-wrong-index', 'C08', D + 'gaussian.py', "            mean = np.einsum(\"...n,...nd->...d\", saliency, y)", "            mean = np.einsum(\"...d,...nd->...d\", saliency, y)", expect='weighted-sum')
+mut('C08-inline-weights-axis', 'C08', D + 'gcacgmm.py', "            weight /= np.sum(weight, axis=-2, keepdims=True)", "            weight /= np.sum(weight, axis=-1, keepdims=True)", expect='weight-renormalisation')
+
 # ------------------------------------------------------------------ neutral variants (must stay silent)
-neu('N-rename-affiliation-local', ['C01', 'C20', 'C04'], [(D + 'mixture_model_utils.py', "    denominator = np.maximum(\n        np.sum(affiliation, axis=-2, keepdims=True),\n        np.finfo(affiliation.dtype).tiny,\n    )\n    affiliation /= denominator\n",
+neu('N-rename-affiliation-local', ALLP, [(D + 'mixture_model_utils.py', "    denominator = np.maximum(\n        np.sum(affiliation, axis=-2, keepdims=True),\n        np.finfo(affiliation.dtype).tiny,\n    )\n    affiliation /= denominator\n",
      "    norm_const = np.maximum(\n        np.sum(affiliation, axis=-2, keepdims=True),\n        np.finfo(affiliation.dtype).tiny,\n    )\n    affiliation /= norm_const\n", False)])
-neu('N-posterior-out-of-place', ['C01', 'C20'], [(D + 'mixture_model_utils.py', "    # Weight multiplied not in log domain to avoid logarithm of zero.\n    affiliation *= weight\n",
+neu('N-posterior-out-of-place', ALLP, [(D + 'mixture_model_utils.py', "    # Weight multiplied not in log domain to avoid logarithm of zero.\n    affiliation *= weight\n",
      "    # Weight multiplied not in log domain to avoid logarithm of zero.\n    affiliation = weight * affiliation\n", False)])
-neu('N-cwmm-predict-uses-normalize-observation', ['C04', 'C01', 'C20'], [(D + 'cwmm.py',
+neu('N-cwmm-predict-uses-normalize-observation', ALLP, [(D + 'cwmm.py',
      "        y = y / np.maximum(\n            np.linalg.norm(y, axis=-1, keepdims=True), np.finfo(y.dtype).tiny\n        )\n        return self._predict(y)",
      "        y = normalize_observation(y)\n        return self._predict(y)", False)])
-neu('N-watson-normalize-where-style', ['C04', 'C20'], [(D + 'complex_watson.py',
+neu('N-watson-normalize-where-style', ALLP, [(D + 'complex_watson.py',
      "    return observation / np.maximum(\n        np.linalg.norm(observation, axis=-1, keepdims=True),\n        np.finfo(observation.dtype).tiny,\n    )",
      "    norm = np.linalg.norm(observation, axis=-1, keepdims=True)\n    return observation / np.where(norm == 0, 1., norm)", False)])
-neu('N-reformat-shift-lines', ['C01', 'C04', 'C20'], [(D + 'cacgmm.py', "from operator import xor\n", "from operator import xor\n\n\n# reformatted: line numbers move\n\n", False),
+neu('N-reformat-shift-lines', ALLP, [(D + 'cacgmm.py', "from operator import xor\n", "from operator import xor\n\n\n# reformatted: line numbers move\n\n", False),
                                                        (D + 'mixture_model_utils.py', "import itertools\n", "import itertools\n\n\n\n", False)])
-neu('N-hoist-temporary', ['C01', 'C04', 'C20'], [(D + 'cacgmm.py',
+neu('N-hoist-temporary', ALLP, [(D + 'cacgmm.py',
      "        log_pdf, quadratic_form = self.cacg._log_pdf(y[..., None, :, :])\n",
      "        y_with_class_axis = y[..., None, :, :]\n        cacg_result = self.cacg._log_pdf(y_with_class_axis)\n        log_pdf, quadratic_form = cacg_result\n", False)])
-neu('N-add-unrelated-public-function', ['C01', 'C04', 'C20'], [('pb_bss/extraction/mask_module.py', "def biased_binary_mask(", "def mask_energy(mask):\n    \"\"\"Sum of squares (new helper).\"\"\"\n    mask = np.asarray(mask)\n    return np.sum(mask ** 2)\n\n\ndef biased_binary_mask(", False)])
-neu('N-psd-copy-via-array', ['C20'], [('pb_bss/extraction/beamformer.py', "        mask = np.copy(mask)\n", "        mask = np.array(mask, copy=True)\n", False)])
-neu('N-gcacgmm-commute-streams', ['C01'], [(D + 'gcacgmm.py',
+neu('N-rename-einsum-letters', ALLP, [(D + 'complex_watson.py', '"...n,...nd,...nD->...dD", saliency, y, y.conj()', '"...t,...ta,...tb->...ab", saliency, y, y.conj()', False),
+                                       (D + 'gaussian.py', "            '...Dd,...nD->...nd',", "            '...ji,...tj->...ti',", False)])
+neu('N-einsum-operand-order', ALLP, [(D + 'complex_angular_central_gaussian.py', "            '...wx,...x,...zx->...wz',\n            self.covariance_eigenvectors,\n            self.covariance_eigenvalues,\n            self.covariance_eigenvectors.conj(),",
+                                      "            '...x,...wx,...zx->...wz',\n            self.covariance_eigenvalues,\n            self.covariance_eigenvectors,\n            self.covariance_eigenvectors.conj(),", False)])
+neu('N-cacg-logpdf-commuted-product', ALLP, [(D + 'complex_angular_central_gaussian.py', "        log_pdf = -D * np.log(quadratic_form)", "        log_pdf = np.log(quadratic_form) * (-D)", False)])
+neu('N-watson-logpdf-one-expression', ALLP, [(D + 'complex_watson.py', "        result *= self.concentration[..., None]\n        result -= self.log_norm()[..., None]\n        return result",
+                                              "        return self.concentration[..., None] * result - self.log_norm()[..., None]", False)])
+neu('N-loop-variable-renamed', ALLP, [(D + 'gmm.py', "        for iteration in range(iterations):\n            if model is not None:\n                affiliation = model.predict(y)\n\n            model = self._m_step(\n                y,\n                affiliation=affiliation,",
+                                       "        for it in range(iterations):\n            if model is not None:\n                posterior = model.predict(y)\n                affiliation = posterior\n\n            model = self._m_step(\n                y,\n                affiliation=affiliation,", False)])
+neu('N-mstep-saliency-hoisted', ALLP, [(D + 'vmfmm.py', "            saliency=affiliation * saliency[..., None, :],\n            min_concentration", "            saliency=saliency[..., None, :] * affiliation,\n            min_concentration", False)])
+neu('N-add-unrelated-public-function', ALLP, [('pb_bss/extraction/mask_module.py', "def biased_binary_mask(", "def mask_energy(mask):\n    \"\"\"Sum of squares (new helper).\"\"\"\n    mask = np.asarray(mask)\n    return np.sum(mask ** 2)\n\n\ndef biased_binary_mask(", False)])
+neu('N-psd-copy-via-array', ALLP, [('pb_bss/extraction/beamformer.py', "        mask = np.copy(mask)\n", "        mask = np.array(mask, copy=True)\n", False)])
+neu('N-gcacgmm-commute-streams', ALLP, [(D + 'gcacgmm.py',
      "                    self.spatial_weight * cacg_log_pdf\n                    + self.spectral_weight * gaussian_log_pdf\n",
      "                    gaussian_log_pdf * self.spectral_weight\n                    + cacg_log_pdf * self.spatial_weight\n", False)])
-neu('N-cacg-normalize-inline', ['C04', 'C20'], [(D + 'complex_angular_central_gaussian.py',
+neu('N-cacg-normalize-inline', ALLP, [(D + 'complex_angular_central_gaussian.py',
      "    observation = _unit_norm(\n        observation,\n        axis=-1,\n        eps=np.finfo(observation.dtype).tiny,\n        eps_style='where',\n    )\n",
      "    observation = observation / np.maximum(\n        np.linalg.norm(observation, axis=-1, keepdims=True),\n        np.finfo(observation.dtype).tiny,\n    )\n", False)])
 
